@@ -1,7 +1,7 @@
 SPEC = {
     "id": "C16",
     "harness": "c16",
-    "n": {"quick": 1500, "thorough": 25000},
+    "n": {"quick": 1000, "thorough": 20000},
     "shard": 100,
     "skip_codes": (2, 7),
     "trusted_base": [
